@@ -32,13 +32,28 @@ def num(v):
     return "%du" % v if v > 2147483647 else "%d" % v
 
 
+# resource types the generator has no layout for (it panics on them once the numbering contract is met): they are only
+# declared in modules whose numbering must be rejected, where the typed error has to come first
+UNSUPPORTED_KINDS = [
+    "var {n}: binding_array<texture_2d<f32>, 4>;",
+    "var {n}: binding_array<sampler, 2>;",
+]
+
+
+def _must_reject(pairs):
+    gs = sorted({g for g, _ in pairs})
+    return len(set(pairs)) != len(pairs) or gs != list(range(len(gs)))
+
+
 def render(pairs, rng, use=True):
     lines = []
     names = []
+    reject = _must_reject(pairs)
     for i, (g, b) in enumerate(pairs):
         n = "v%d" % i
         names.append(n)
-        lines.append("@group(%s) @binding(%s) %s" % (num(g), num(b), rng.choice(KINDS).format(n=n)))
+        kinds = KINDS + (UNSUPPORTED_KINDS if reject and rng.random() < 0.3 else [])
+        lines.append("@group(%s) @binding(%s) %s" % (num(g), num(b), rng.choice(kinds).format(n=n)))
     # an unbound private variable in between must not disturb anything
     if rng.random() < 0.3:
         lines.insert(rng.randrange(len(lines) + 1), "var<private> scratch: f32;")
